@@ -230,8 +230,12 @@ pub fn dev(env: &Env, rest: &[String]) -> i32 {
     let c = Campaign { target: tname, runs, max_len: 16384, seeds };
     let r = run(env, &c);
     println!("{}: {} ; crashes: {}", target, r.note, r.crashes.len());
-    for b in r.crashes.iter().take(2) {
-        println!("--- input ({} bytes): {}", b.len(), String::from_utf8_lossy(b).chars().take(300).collect::<String>());
+    let keep = env.verif.join(".build").join("fuzz-crashes");
+    let _ = std::fs::create_dir_all(&keep);
+    for (i, b) in r.crashes.iter().enumerate() {
+        let p = keep.join(format!("{target}-{i}"));
+        let _ = std::fs::write(&p, b);
+        println!("--- input {} ({} bytes) kept as {}: {:?}", i, b.len(), p.display(), String::from_utf8_lossy(b).chars().take(200).collect::<String>());
     }
     if !r.crashes.is_empty() {
         println!("{}", r.stderr_tail);
